@@ -44,7 +44,7 @@ def candidates(name: str, D: int, form: str) -> List[Any]:
     labels_ = torch.randint(0, 3, (2, 1, *sp), generator=g)
     by = {
         "data": [img(2), img(1), flow()], "input": [img(2), img(1)], "image": [img(1)], "tensor": [img(2), T(4, D), mat(), labels_], "x": [img(1), T(5, D), T(5)],
-        "a": [mat(), T(2, D, D), T(5, D), img(1)], "b": [mat(), T(2, D, D), T(5, D), img(1)], "y": [img(1), T(5, D), T(5)], "arr": [T(4, 3), [1.0, 2.0]],
+        "a": [mat(), T(2, D, D), T(2, D, 1), T(D), T(5, D), img(1)], "b": [mat(), T(2, D, D), T(2, D, 1), T(D), T(5, D), img(1)], "y": [img(1), T(5, D), T(5)], "arr": [T(4, 3), [1.0, 2.0]],
         "flow": [flow()], "u": [flow()], "v": [flow()], "grid": [grid_obj.coords().unsqueeze(0).expand(2, *sp, D).clone(), grid_obj],
         "points": [pts()], "coords": [pts(), grid_obj.coords().unsqueeze(0)], "vectors": [pts()], "transform": [mat(), flow()], "transforms": [mat()],
         "matrix": [mat(), T(2, 3, 3), T(2, 3, 4)], "quaternion": [torch.nn.functional.normalize(T(2, 4), dim=-1)], "angle_axis": [T(2, 3) - 1.5],
@@ -185,6 +185,7 @@ def record_calls(ctx: Ctx, forms: List[str]) -> Tuple[List[List[dict]], List[str
             if any(len(c) == 0 for c in cands):
                 break
             done = False
+            ndone = 0
             for combo in itertools.islice(itertools.product(*cands), 40):
                 args = {p.name: v for p, v in zip(req, combo)}
                 snap = snapshot(args)
@@ -200,11 +201,15 @@ def record_calls(ctx: Ctx, forms: List[str]) -> Tuple[List[List[dict]], List[str
                     continue
                 except Exception:
                     continue
-                evs.append(dict(call=name, D=D, form=form, written=changed(args, snap), allowed=allowed))
-                done = True
-                if form == "plain":
+                evs.append(dict(call=name, D=D, form=form if not done else form + f" #{ndone}", written=changed(args, snap), allowed=allowed))
+                if not done and form == "plain":
                     evs.extend(option_sweep(name, fn, sig, args, D, allowed))
-                break
+                done = True
+                ndone += 1
+                # functions of two or more tensor operands accept several operand FORMS (vector / square / homogeneous ...): every accepted combination
+                # of the candidates is one more call (up to a bound); single-operand functions are done after the first
+                if len(req) < 2 or ndone >= 12:
+                    break
             covered = covered or done
         if not covered:
             uncovered.append(name)
